@@ -6,7 +6,7 @@
 From Coq Require Import ZArith List Bool.
 Import ListNotations.
 Require Import MV.Lib.Base MV.C09.Gen MV.C09.Model MV.C09.ProofsDijkstra MV.C09.ProofsQueue MV.C09.ProofsMesh
-        MV.C09.ProofsSet MV.C09.ProofsTop.
+        MV.C09.ProofsSet MV.C09.ProofsTop MV.C09.ProofsExport.
 Open Scope Z_scope.
 
 (* (modes) the three weight selectors of paths.py are lambdas of the arity they are called with (no TypeError), and
@@ -132,3 +132,34 @@ Theorem C09_executed_model : forall m ws start,
      exists p, run_border m ws start = Ok p /\ nearest m ws start (border m) (last p start) p).
 Proof. exact executed_model_correct. Qed.
 Print Assumptions C09_executed_model.
+
+(* (export_path_mesh) the polyline built from the returned paths (each a valid edge path, or empty for a target that is
+   not connected): its vertices copy the path vertices in order, every consecutive pair of every path is one of its
+   edges, and every one of its edges is such a pair - hence joins two vertices that a mesh edge joins *)
+Theorem C09_export_polyline : forall m s (l : list (Z * list Z)),
+  (forall tp, In tp l -> snd tp = [] \/ valid_path m s (fst tp) (snd tp) = true) ->
+  let ps := map snd l in
+  let r := build_path ps in
+  fst r = concat ps /\
+  (forall pre p post i, ps = pre ++ p :: post -> 1 <= i < zlen p ->
+      In (zlen (concat pre) + i - 1, zlen (concat pre) + i) (snd r)
+      /\ znth (fst r) (zlen (concat pre) + i - 1) 0 = znth p (i - 1) 0
+      /\ znth (fst r) (zlen (concat pre) + i) 0 = znth p i 0) /\
+  (forall e, In e (snd r) -> snd e = fst e + 1 /\ medge m (znth (fst r) (fst e) 0) (znth (fst r) (snd e) 0) = true).
+Proof. exact export_polyline_correct. Qed.
+Print Assumptions C09_export_polyline.
+
+(* shortest_path(..., export_path_mesh=True) as executed: for every start vertex and collection of target vertices the
+   returned dict answers each target (optimal path / empty if not connected) and the polyline built from it has the path
+   vertices in order, an edge for every consecutive pair of every path, and only edges joining mesh-adjacent vertices *)
+Theorem C09_shortest_path_export : forall m ws start targets,
+  mesh_ok m ws = true -> is_vertex m start = true -> forallb (is_vertex m) targets = true ->
+  exists l, run_sp m ws start targets = Ok l
+    /\ Forall2 (fun t tp => fst tp = t /\ target_answer m ws start t (snd tp)) (dedup targets) l
+    /\ let r := build_path (map snd l) in
+       fst r = concat (map snd l) /\
+       (forall pre p post i, map snd l = pre ++ p :: post -> 1 <= i < zlen p ->
+           In (zlen (concat pre) + i - 1, zlen (concat pre) + i) (snd r)) /\
+       (forall e, In e (snd r) -> snd e = fst e + 1 /\ medge m (znth (fst r) (fst e) 0) (znth (fst r) (snd e) 0) = true).
+Proof. exact shortest_path_export_correct. Qed.
+Print Assumptions C09_shortest_path_export.
